@@ -10,6 +10,7 @@
 -/
 import G9Proofs.Lemmas.LifeReach
 import G9Proofs.Lemmas.FidLife
+import G9Proofs.Lemmas.FidCommute
 namespace G9.C11
 open G9 G9.Life
 
@@ -225,6 +226,21 @@ theorem fid_teardown_never_stuck (s : FS) (hc : s.closed = true) (hnq : ¬ s.qui
       exfalso
       apply hne
       omega
+
+/-- What lets the acceptor replay a log in which a `retain` that read `conn.done` open appears
+    *after* regions that ran later (retain runs under the fid's lock, Conn.close's copy of the
+    table under the connection's; the log order between them means nothing): if none of the events
+    logged in between concerns the fid — in particular Conn.close has not visited it — the state
+    reached by replaying the retain late is the state of the schedule in which it ran first. -/
+theorem retain_logged_late_is_a_schedule (s s' : FS) (es : List FEv) (o : Nat)
+    (hopen : s.closed = false) (ho : o < s.n) (hp : (s.obj o).pending = true) (hh : 1 ≤ (s.obj o).holds)
+    (hind : ∀ (pre : List FEv) (e : FEv) (post : List FEv) (t : FS), es = pre ++ e :: post → s.run pre = some t →
+      target t e ≠ some o)
+    (hs : s.run es = some s') : s.run (.retain o :: es) = some (retainOpen s' o) := by
+  have h1 : s.step (.retain o) = some (retainOpen s o) := by
+    simp [FS.step, ho, hp, hh, hopen, retainOpen]
+  simp only [FS.run, h1, Option.bind_some]
+  exact retainOpen_commutes_run es s s' o ho hind hs
 
 /-! non-vacuity: a fid is created and retained; a request is using it when the client disconnects;
     Conn.close takes the table's reference away, the request's release afterwards is the last one
